@@ -135,15 +135,16 @@ func seedMap(es []seedEntry) (*gostatsd.MetricMap, string) {
 }
 
 type op struct {
-	Op   string      `json:"op"` // seed | recv | merge | mergemaps | bmap | bmetrics
-	R    int         `json:"r"`  // register; for bmap / bmetrics: worker index
-	From int         `json:"from,omitempty"`
-	Srcs []int       `json:"srcs,omitempty"`
-	Dp   *mmgen.Dp   `json:"dp,omitempty"`
-	Dps  []mmgen.Dp  `json:"dps,omitempty"`  // bmap / bmetrics: the batch
-	Jit  int         `json:"jit,omitempty"`  // bmap / bmetrics: Gosched calls before delivering
-	S    string      `json:"s,omitempty"`    // info (stages stream): the address whose lookup result arrives
-	Seed []seedEntry `json:"seed,omitempty"` // seed: the register becomes this map; bmap: the batch map starts as this map
+	Op      string      `json:"op"` // seed | recv | merge | mergemaps | bmap | bmetrics
+	R       int         `json:"r"`  // register; for bmap / bmetrics: worker index
+	From    int         `json:"from,omitempty"`
+	Srcs    []int       `json:"srcs,omitempty"`
+	Dp      *mmgen.Dp   `json:"dp,omitempty"`
+	Dps     []mmgen.Dp  `json:"dps,omitempty"`     // bmap / bmetrics: the batch
+	Jit     int         `json:"jit,omitempty"`     // bmap / bmetrics: Gosched calls before delivering
+	S       string      `json:"s,omitempty"`       // info / evict (stages stream): the address whose lookup result arrives / whose cache entry expires
+	NoCache bool        `json:"nocache,omitempty"` // info: the result releases the queue but Peek keeps missing (the next batch raced the lookup, or the answer is not cached)
+	Seed    []seedEntry `json:"seed,omitempty"`    // seed: the register becomes this map; bmap: the batch map starts as this map
 }
 
 type input struct {
